@@ -417,6 +417,10 @@ class Circuit:
                 Line(self, (node_map[l.driver], l.driver_pin), (node_map[l.reader], l.reader_pin))
         for inn, ll in zip(impl_in_nodes, node_in_lines):  # connect inputs
             if ll is None: continue
+            if len(inn.outs) == 0:  # the implementation ignores this input pin: drop the connection
+                ll.reader = None
+                ll.remove()
+                continue
             if len(inn.outs) == 1:
                 l = inn.outs[0]
                 ll.reader = node_map[l.reader]
